@@ -79,6 +79,7 @@ struct Config {
     std::string replay_dir = "/verif/replays/tmp";
     std::string mode;  // check-specific sub-mode
     bool tso = false;
+    bool stale = false;  // stale-load layer (serial engine only)
     long watchdog_ms = 20000;
     long stall_ms = 4000;
     bool verbose = false;
@@ -147,7 +148,7 @@ inline std::string result_json(const std::string& violation_key, const std::stri
     ThreadStats ts = total_stats();
     double wall = std::chrono::duration<double>(std::chrono::steady_clock::now() - res.t0).count();
     o << "{\"property\":" << jstr(cfg.property) << ",\"engine\":" << jstr(cfg.engine) << ",\"variant\":"
-      << jstr(cfg.variant) << ",\"mode\":" << jstr(cfg.mode) << ",\"tso\":" << (cfg.tso ? 1 : 0)
+      << jstr(cfg.variant) << ",\"mode\":" << jstr(cfg.mode) << ",\"tso\":" << (cfg.tso ? 1 : 0) << ",\"stale\":" << (cfg.stale ? 1 : 0)
       << ",\"seed\":" << cfg.seed << ",\"proc\":" << cfg.proc << ",\"rounds\":" << res.rounds_done
       << ",\"wall_s\":" << wall << ",\"distinct\":" << res.all_sigs.size() << ",\"nontrivial\":" << res.sigs.size();
     o << ",\"nontrivial_sigs\":[";
@@ -174,7 +175,7 @@ inline std::string result_json(const std::string& violation_key, const std::stri
     o << "},\"shim\":{\"lock_calls\":" << ts.lock_calls << ",\"lock_contended\":" << ts.lock_contended
       << ",\"cv_waits\":" << ts.cv_waits << ",\"yields\":" << ts.yields << ",\"atomics\":" << ts.atomics
       << ",\"try_or_timed_failed\":" << ts.timed_fail << ",\"spurious_wakeups\":" << ts.spurious
-      << ",\"delays_injected\":" << ts.injected << "}";
+      << ",\"delays_injected\":" << ts.injected << ",\"stale_layer_weak_loads\":" << rt.weak_loads << ",\"stale_layer_stale_answers\":" << rt.stale_loads << "}";
     o << ",\"samples\":[";
     for (size_t i = 0; i < res.samples.size(); i++) {
         if (i) o << ",";
@@ -318,6 +319,7 @@ inline void init(int argc, char** argv, const char* property)
         else if (a == "--replay-dir") cfg.replay_dir = next();
         else if (a == "--mode") cfg.mode = next();
         else if (a == "--tso") cfg.tso = atoi(next().c_str()) != 0;
+        else if (a == "--stale") cfg.stale = atoi(next().c_str()) != 0;
         else if (a == "--watchdog-ms") cfg.watchdog_ms = atol(next().c_str());
         else if (a == "--stall-ms") cfg.stall_ms = atol(next().c_str());
         else if (a == "-v") cfg.verbose = true;
@@ -326,6 +328,8 @@ inline void init(int argc, char** argv, const char* property)
     }
     rt.on_violation = &violation_cb;
     rt.tso.store(cfg.tso);
+    rt.stale = cfg.stale;
+    if (cfg.stale && cfg.engine != "serial") harness_error("the stale-load layer needs the serial engine");
     if (cfg.engine == "serial") rt.engine.store(E_SERIAL);
     else if (cfg.engine == "stress") rt.engine.store(E_STRESS);
     else rt.engine.store(E_OFF);  // "seq", "off"
@@ -377,6 +381,7 @@ inline constexpr bool clock_is_sync() { return !VRF_TSAN; }
 inline uint64_t now()
 {
     sb_flush();
+    stale_global_sync(ctx());
 #if VRF_TSAN
     return g_clock.fetch_add(1, std::memory_order_relaxed);
 #else
@@ -399,7 +404,10 @@ template<class Pred>
 inline void spin_until(Pred p)
 {
     ThreadCtx& c = ctx();
-    if (p()) return;
+    if (p()) {
+        stale_global_sync(c);
+        return;
+    }
     c.blocked_kind.store(3, std::memory_order_relaxed);
     unsigned it = 0;
     while (!p()) {
@@ -411,6 +419,7 @@ inline void spin_until(Pred p)
     }
     c.blocked_kind.store(0, std::memory_order_relaxed);
     c.progress.fetch_add(1, std::memory_order_relaxed);
+    stale_global_sync(c);  // what the harness waited for has happened-before from here on
 }
 template<class Fut>
 inline void wait_ready(Fut& f)
@@ -583,6 +592,7 @@ struct Round {
                 rt.freeze_armed = false;
                 rt.freeze_span = 0;
                 rt.freeze_happened = false;
+                if (rt.stale) stale_reset_round();
                 rt.timeouts_fired = false;
                 int strat = force_strategy >= 0 ? force_strategy : static_cast<int>(r2.below(2));
                 rt.strategy = strat;
